@@ -311,6 +311,24 @@ class PrepareAst:
                 for cond, expr in result.branches.items()
             ]
 
+            if result.default is None:
+                # without a default value the result is undefined for every selector
+                # value that has no branch (stale value in sequential contexts,
+                # incomplete with-select statement in concurrent contexts)
+                selector = _type_qualifier.TypeQualifier.decay(result.arg)
+                members = getattr(type(selector), "__members__", None)
+
+                if members is not None:
+                    value_cnt = len(members)
+                elif isinstance(selector, BitVector):
+                    value_cnt = 2**selector.width
+                else:
+                    value_cnt = 2
+
+                assert (
+                    len(branches) >= value_cnt
+                ), "select_with without default value requires a branch for every possible value of the selector"
+
             return out.SelectWith(result.arg, branches, result.default)
 
         if isinstance(result, _Any):
